@@ -185,6 +185,7 @@ SENTENCES = [
     "y ~ f ( x , k = 2 ) + f ( x , k = 3 )", "y ~ f ( x , 2 ) + f ( x , 3 )", "y ~ f ( x , k = 's' ) : f ( x , k = 't' )", "y ~ f ( x , k = True ) + f ( x , k = False ) + ( 1 | g ( h , 1 ) ) + ( 1 | g ( h , 2 ) )",
     "y ~ x + ( a | s ) + ( b | s ) + ( c | s ) + ( d | s ) + ( e | s ) + ( f | s ) + ( g | s ) + ( h | s ) + z",
     "y ~ a + b + c + d + e + f + g + h + i + j + k + ( x | s ) + ( 1 | t )", "y ~ a : b + c : d + e : f + g + h + i + j + k + l + m + n + ( x | s )",
+    "y ~ f ( x , )", "y ~ log ( x , base = 2 , )", "y ~ g ( x , h ( z , ) ) + a", "y ~ f ( x , , )", "y ~ f ( , x )",
     "y ~ x [ ( a ) ]", "x [ ( 'a' ) ] ~ b", "y [ `a` ] ~ b", "y [ { a } ] ~ b", "y [ f ( a ) ] ~ b", "y ~ a + x [ ( ( b ) ) ]", "y [ - a ] ~ b", "y [ 1 ] ~ b",
     "y [ '' ] ~ a", 'y [ "" ] ~ a + f ( b , \'\' )', "y [ ' ' ] ~ a", "y [ 's' ] ~ f ( a , k = '' ) + f ( a , k = 's' )",
 ]
@@ -470,6 +471,19 @@ def check_case(case, acc):
                     continue
                 if kv == key:
                     problems.append(("literal-not-ignored", f"{s!r} and {v!r} give the same model {key}"))
+    # the list handed out by .terms belongs to the caller: emptying it leaves the description as it was
+    try:
+        from formulae import model_description as _md
+
+        d_ = _md(s)
+        k_before = model_key(d_)
+        handed = d_.terms
+        handed.reverse()
+        del handed[:]
+        if model_key(d_) != k_before or k_before != key:
+            problems.append(("description-not-aliased", f"{s!r}: after the caller emptied the list it got from .terms the description changed from {k_before} to {model_key(d_)}"))
+    except Exception:
+        pass
     # interpretation is a function of the text alone: building a design from the same text in between changes nothing
     built = build_on_frame(s)
     acc.calls += 2
